@@ -259,6 +259,15 @@ VFn(idx, x) ==
   IF x.st # "ok" THEN x
   ELSE IF x.dim # NoDim THEN VSt("unspec")
   ELSE VT(TOp("f1", idx, <<x.t>>), NoDim)
+\* the one-argument functions: `fn` names the mathematical function of the term language, `text` is
+\* how the occurrence is written.  The documentation calls the natural logarithm ln(, the solver
+\* (and its tests) log( - both spellings are in the quantifier.
+Fn1Table == << [fn |-> "exp", text |-> "exp(", tags |-> {}],
+               [fn |-> "ln", text |-> "log(", tags |-> {}],
+               [fn |-> "ln", text |-> "ln(", tags |-> {"fn_ln_as_documented"}],
+               [fn |-> "log10", text |-> "log10(", tags |-> {}],
+               [fn |-> "sin", text |-> "sin(", tags |-> {}],
+               [fn |-> "cos", text |-> "cos(", tags |-> {}] >>
 VAtom(tok) == LET a == AT(tok) IN VQ(ABase(a), UDim(a.u))
 
 \* evaluation of a Polish tree; fi = number of function occurrences met so far
